@@ -123,6 +123,17 @@ def strFind (s : Token) (c : Char) : Int := if s.contains c then (s.idxOf c : Na
 /-- `s.ljust(n, c)` -/
 def ljust (s : Token) (n : Nat) (c : Char) : Token := s ++ List.replicate (n - s.length) c
 
+/-- the dict `repl` of `_build_naive`: the keyword arguments handed to `default.replace` -/
+structure Repl where
+  year : Option Nat := none
+  month : Option Nat := none
+  day : Option Nat := none
+  hour : Option Nat := none
+  minute : Option Nat := none
+  second : Option Nat := none
+  microsecond : Option Nat := none
+  deriving Repr, DecidableEq, Inhabited
+
 /-! ### a datetime as far as `_assign_tzname` looks at it -/
 
 /-- the zone's names for the wall time at fold 0 and at fold 1, and the fold the datetime carries -/
